@@ -33,7 +33,7 @@ from .. import lattice as L
 from ..faultfs import VerifFS
 
 LEVEL = "model_checking"
-RETRY = dict(stop_max_attempt_number=3, wait_fixed=0)
+RETRY = dict(wait_exponential_multiplier=1, wait_exponential_max=1, stop_max_attempt_number=3)     # the keys of the library's own default, 1 ms waits
 
 
 def sq(x0, y0, x1, y1):
